@@ -377,6 +377,11 @@ def g_case(c, ob, opq):
 
 
 # ------------------------------------------------------------------ case generation
+def pick_name(rng):
+    """few hot names so that set/copy conflicts between datasets are frequent"""
+    return rng.choice(ATTR_NAMES[:3]) if rng.random() < 0.6 else rng.choice(ATTR_NAMES)
+
+
 def gen_case(rng, tier):
     kinds = rng.choice([["file", "file", "mem"]] * 4 + [["file", "mem"], ["file", "file", "file", "mem"], ["file"]])
     n = len(kinds)
@@ -391,19 +396,20 @@ def gen_case(rng, tier):
         i = rng.randrange(n)
         have = [p[0] for p in w[i]]
         if r < 0.10 and i not in touched:
-            ks = rng.sample(ATTR_NAMES, rng.randint(0, 3))
+            ks = rng.sample(ATTR_NAMES[:5], rng.randint(0, 3))
             o = {"op": "init", "i": i, "kv": [[k, gen_val(rng, 0, tier)] for k in ks]}
         elif r < 0.45:
-            k = rng.choice(have) if have and rng.random() < 0.15 else rng.choice(ATTR_NAMES)
+            k = rng.choice(have) if have and rng.random() < 0.15 else pick_name(rng)
             o = {"op": "set", "i": i, "k": k, "v": gen_val(rng, 0, tier)}
         elif r < 0.57:
-            k = rng.choice(have) if have and rng.random() < 0.55 else rng.choice(ATTR_NAMES)
+            k = rng.choice(have) if have and rng.random() < 0.55 else pick_name(rng)
             o = {"op": "put", "i": i, "k": k, "v": gen_val(rng, 0, tier)}
         elif r < 0.67:
             k = rng.choice(have) if have and rng.random() < 0.85 else rng.choice(ATTR_NAMES)
             o = {"op": "del", "i": i, "k": k}
         elif r < 0.87 and n > 1:
-            src = i
+            full = [j for j in range(n) if w[j]]
+            src = rng.choice(full) if (not w[i] and full) else i
             dst = rng.choice([j for j in range(n) if j != src])
             shave = [p[0] for p in w[src]]
             q = rng.random()
@@ -502,7 +508,7 @@ def check_tree_attrs(n, path, bad):
 def run(ctx):
     ctx.coq_props()
     rng = ctx.rng
-    n = 180 if ctx.tier == "quick" else 2500
+    n = 150 if ctx.tier == "quick" else 3000
     cases = corpus()
     while len(cases) < n:
         cases.append(gen_case(rng, ctx.tier))
@@ -520,10 +526,13 @@ def run(ctx):
         # ---- direct oracle: every attribute reads back as the last value written
         w = [[] for _ in c["kinds"]]
         for op in c["ops"]:
-            sim_step(w, op)
-            hist["ops"][op["op"]] = hist["ops"].get(op["op"], 0) + 1
             if op["op"] == "write":
                 hist["vias"][op["via"]] = hist["vias"].get(op["via"], 0) + 1
+                sk, dk = {p[0] for p in w[op["src"]]}, {p[0] for p in w[op["dst"]]}
+                if (set(op["keys"]) or sk) & sk & dk:
+                    hist["copy_conflicts"] = hist.get("copy_conflicts", 0) + 1
+            sim_step(w, op)
+            hist["ops"][op["op"]] = hist["ops"].get(op["op"], 0) + 1
             for v in ([op["v"]] if "v" in op else [x for _, x in op.get("kv", [])]):
                 count_types(v, hist["values"])
                 maxdepth = max(maxdepth, depth_of(v))
